@@ -730,7 +730,8 @@ pub fn op_values(op: &Op) -> Vec<Val> {
         Op::Payload { v, .. } => vec![v.clone()],
         Op::Payloads { vs, .. } => vs.clone(),
         Op::WriteTlv { kind, len, seed } => vec![Val::Tlv { kind: *kind, len: *len, seed: *seed }],
-        Op::WriteTlvType { ty, len, seed } => vec![Val::Tlv { kind: enc::TYPE_CODES[*ty].1, len: *len, seed: *seed }],
+        // the code the library itself assigns to the named type (C07 / C20 pin the codes to the registry)
+        Op::WriteTlvType { ty, len, seed } => vec![Val::Tlv { kind: u8::from(TYPES[*ty]), len: *len, seed: *seed }],
         _ => vec![],
     }
 }
